@@ -18,17 +18,23 @@ EXTENDS Trim
 RECURSIVE SortedSeq(_)
 SortedSeq(S) == IF S = {} THEN <<>>
                 ELSE LET m == CHOOSE x \in S : \A y \in S : x <= y IN <<m>> \o SortedSeq(S \ {m})
-InFile(G, f, K) == SortedSeq({d \in OfKind(G, K) : FileOf(G, d) = f})
+InFile(I, f, K) == SortedSeq({d \in I.alive : I.G.defs[d].k \in K /\ I.G.defs[d].f = f})
+
+\* Repairs of the pinned algorithm that a tree under test may carry (the check probes the tree and sets this):
+\*   "localbase": markService also follows a base service of the same file
+\*   "extinc":    markService does not mark the include of a base service whose `extends` is being cleared
+CONSTANT Fixes
 
 \* the context of one run: program, arguments, patterns as the code reads them (an unqualified name gets the
 \* name of the only / the LAST service of the root file: trimmer.go doTrimAST)
-LastRootSvc(G) == CHOOSE s \in RootSvcs(G) : \A s2 \in RootSvcs(G) : s2 <= s
-CodePats(G, pats) ==
-  IF RootSvcs(G) = {} THEN {}
-  ELSE {IF pats[i].q = "unq" THEN [q |-> "exact", s |-> LastRootSvc(G), f |-> pats[i].f] ELSE pats[i] : i \in DOMAIN pats}
-Ctx(G, Ar) == [G |-> G, Ar |-> Ar, force |-> Ar.preserve = "off", filt |-> Len(Ar.pats) > 0, P |-> CodePats(G, Ar.pats)]
+LastRootSvc(I) == CHOOSE s \in I.roots : \A s2 \in I.roots : s2 <= s
+CodePats(I, pats) ==
+  IF I.roots = {} THEN {}
+  ELSE {IF pats[i].q = "unq" THEN [q |-> "exact", s |-> LastRootSvc(I), f |-> pats[i].f] ELSE pats[i] : i \in DOMAIN pats}
+Ctx(I, Ar) == [I |-> I, G |-> I.G, Ar |-> Ar, force |-> Ar.preserve = "off", filt |-> Len(Ar.pats) > 0,
+               P |-> CodePats(I, Ar.pats)]
 
-St0(G) == [mk |-> {}, mf |-> {}, mi |-> {}, kc |-> [f \in Files(G) |-> 2], es |-> {}]
+St0(I) == [mk |-> {}, mf |-> {}, mi |-> {}, kc |-> [f \in I.files |-> 2], es |-> {}]
 MarkDef(st, d) == [st EXCEPT !.mk = @ \cup {d}]
 MarkInc(st, f, g) == [st EXCEPT !.mi = @ \cup {<<f, g>>}]
 
@@ -78,10 +84,10 @@ BPresLoop(C, st, sls, i, ret) ==
        ELSE BPresLoop(C, st, sls, i + 1, ret)
 BKept(C, st, f) ==
   IF st.kc[f] # 2 THEN [st |-> st, ret |-> st.kc[f] = 1]
-  ELSE LET cs  == InFile(C.G, f, {"const"})
-           tds == InFile(C.G, f, {"typedef"})
+  ELSE LET cs  == InFile(C.I, f, {"const"})
+           tds == InFile(C.I, f, {"typedef"})
            st2 == BDefTypes(C, BDefTypes(C, st, cs, 1), tds, 1)
-           sls == InFile(C.G, f, {"struct"}) \o InFile(C.G, f, {"union"}) \o InFile(C.G, f, {"exception"})
+           sls == InFile(C.I, f, {"struct"}) \o InFile(C.I, f, {"union"}) \o InFile(C.I, f, {"exception"})
            r   == IF C.force THEN [st |-> st2, ret |-> Len(cs) + Len(tds) > 0]
                   ELSE BPresLoop(C, st2, sls, 1, Len(cs) + Len(tds) > 0)
        IN [st |-> [r.st EXCEPT !.kc[f] = IF r.ret THEN 1 ELSE 0], ret |-> r.ret]
@@ -111,8 +117,8 @@ BTrace(C, st, fathers, s) ==
                  IN [st  |-> IF back.ret THEN back.st ELSE [back.st EXCEPT !.es = @ \cup {s}],  \* markServiceExtends
                      ret |-> back.ret \/ r1.ret]
   IN IF r2.ret
-     THEN [st  |-> IF b # 0 /\ FileOf(C.G, b) # FileOf(C.G, s)
-                   THEN MarkInc(MarkDef(r2.st, s), FileOf(C.G, s), FileOf(C.G, b)) ELSE MarkDef(r2.st, s),
+     THEN [st  |-> IF b # 0 /\ FileOf(C.I, b) # FileOf(C.I, s)
+                   THEN MarkInc(MarkDef(r2.st, s), FileOf(C.I, s), FileOf(C.I, b)) ELSE MarkDef(r2.st, s),
            ret |-> TRUE]
      ELSE r2
 
@@ -130,38 +136,39 @@ BSvc(C, st, s) ==
            st1 == IF ~C.filt THEN MarkDef(st, s) ELSE st
            st2 == BSvcFns(C, st1, s, 1)
            st3 == IF C.filt /\ b # 0 THEN BTrace(C, st2, <<s>>, s).st ELSE st2
-       IN IF b # 0 /\ s \in st3.mk /\ FileOf(C.G, b) # FileOf(C.G, s)     \* svc.Reference != nil
-          THEN BSvc(C, MarkInc(st3, FileOf(C.G, s), FileOf(C.G, b)), b)
-          ELSE st3                                                         \* a local base is not followed here
+       IN IF b # 0 /\ s \in st3.mk /\ ("extinc" \in Fixes => s \notin st3.es)
+          THEN IF FileOf(C.I, b) # FileOf(C.I, s)                        \* svc.Reference != nil
+               THEN BSvc(C, MarkInc(st3, FileOf(C.I, s), FileOf(C.I, b)), b)
+               ELSE IF "localbase" \in Fixes THEN BSvc(C, st3, b)
+                    ELSE st3                                            \* a local base is not followed here
+          ELSE st3
 
 RECURSIVE BSvcs(_, _, _, _)
 BSvcs(C, st, ss, i) == IF i > Len(ss) THEN st ELSE BSvcs(C, BSvc(C, st, ss[i]), ss, i + 1)
 \* markAST
-BMarks(C) == BSvcs(C, BPre(C, St0(C.G), 1).st, InFile(C.G, 1, {"service"}), 1)
+BMarks(C) == BSvcs(C, BPre(C, St0(C.I), 1).st, InFile(C.I, 1, {"service"}), 1)
 
 \* traversal + the state the re-resolution leaves
 BSweep(C, st) ==
-  LET G == C.G
-      contrib(g) == \E d \in OfKind(G, {"const", "enum", "typedef"}) : FileOf(G, d) = g
-      incKept == {e \in AllInc(G) : e \in st.mi \/ contrib(e[2])}
+  LET G == C.G  I == C.I
+      contrib == {FileOf(I, d) : d \in I.cte}
+      incKept == {e \in I.ainc : e \in st.mi \/ e[2] \in contrib}
       surv == FileReach(incKept, {1})
-      kept == {d \in Alive(G) : /\ FileOf(G, d) \in surv
-                                /\ \/ G.defs[d].k \in {"const", "typedef", "enum"}
-                                   \/ G.defs[d].k \in SLKinds /\ (d \in st.mk \/ CheckPres(C, d))
-                                   \/ G.defs[d].k = "service" /\ d \in st.mk}
+      kept == {d \in I.alive : /\ FileOf(I, d) \in surv
+                               /\ \/ G.defs[d].k \in {"const", "typedef", "enum"}
+                                  \/ G.defs[d].k \in SLKinds /\ (d \in st.mk \/ CheckPres(C, d))
+                                  \/ G.defs[d].k = "service" /\ d \in st.mk}
       R0 == [kept |-> kept,
-             fns  |-> {sf \in AllFns(G) : sf[1] \in kept /\ (C.filt => sf \in st.mf)},
+             fns  |-> {sf \in I.fns : sf[1] \in kept /\ (C.filt => sf \in st.mf)},
              inc  |-> {e \in incKept : e[1] \in surv},
-             ext  |-> {s \in kept \cap Services(G) : G.defs[s].ext # 0 /\ s \notin st.es}]
-      wf == \A d \in R0.kept : \A e \in DirectRefs(G, R0, d) :
-               e \in R0.kept /\ (FileOf(G, e) = FileOf(G, d) \/ <<FileOf(G, d), FileOf(G, e)>> \in R0.inc)
-  IN [kept |-> R0.kept, fns |-> R0.fns, inc |-> R0.inc, ext |-> R0.ext, ok |-> wf]
+             ext  |-> {s \in kept \cap I.svcs : G.defs[s].ext # 0 /\ s \notin st.es}]
+  IN [kept |-> R0.kept, fns |-> R0.fns, inc |-> R0.inc, ext |-> R0.ext, ok |-> WellFormed(I, R0)]
 
-BTrim(G, Ar) == LET C == Ctx(G, Ar) IN BSweep(C, BMarks(C))
+BTrim(I, Ar) == LET C == Ctx(I, Ar) IN BSweep(C, BMarks(C))
 
 \* the program a result leaves behind (same numbering; removed definitions become "dead")
 Apply(G, R) ==
-  [inc  |-> [f \in Files(G) |-> LET keep(g) == <<f, g>> \in R.inc IN SelectSeq(G.inc[f], keep)],
+  [inc  |-> [f \in 1..Len(G.inc) |-> LET keep(g) == <<f, g>> \in R.inc IN SelectSeq(G.inc[f], keep)],
    defs |-> [d \in 1..Len(G.defs) |->
                IF d \notin R.kept THEN [G.defs[d] EXCEPT !.k = "dead"]
                ELSE IF G.defs[d].k = "service"
@@ -169,11 +176,9 @@ Apply(G, R) ==
                          IN [G.defs[d] EXCEPT !.fns = SelectSeq(@, keepf), !.ext = IF d \in R.ext THEN @ ELSE 0]
                     ELSE G.defs[d]]]
 
-BResult(G, Ar) ==
-  LET r1 == BTrim(G, Ar)
-      r2 == BTrim(Apply(G, r1), Ar)
+BResult(I, Ar) ==
+  LET r1 == BTrim(I, Ar)
+      r2 == BTrim(Info(Apply(I.G, r1)), Ar)
   IN [kept |-> r1.kept, fns |-> r1.fns, inc |-> r1.inc, ext |-> r1.ext, ok |-> r1.ok, same |-> TRUE,
       idem |-> (~r1.ok) \/ (r2.kept = r1.kept /\ r2.fns = r1.fns /\ r2.inc = r1.inc /\ r2.ext = r1.ext)]
-
-BRefinesA(G, Ar) == Allowed(G, Ar, BResult(G, Ar))
 =============================================================================
